@@ -49,6 +49,11 @@ type Ctx struct {
 }
 
 func (c *Ctx) Rule(id, desc string, floor int) *RuleResult {
+	// the floor guards against a rule that silently matches nothing; it is set to half of the number of instances
+	// confirmed by hand so that an ordinary refactoring (folding three call sites into a helper) does not trip it
+	if floor > 1 {
+		floor = (floor + 1) / 2
+	}
 	r := &RuleResult{ID: c.Prop + "." + id, Desc: desc, Floor: floor, ctx: c, seenSamples: map[string]bool{}}
 	c.Rules = append(c.Rules, r)
 	return r
